@@ -20,16 +20,18 @@
 //!
 //! Stages
 //!   1 transition-relation  every state (page, progress in {idle, 0..159}) x every action
-//!                          (elapse b in {0,4,..,700}; re-arm page' in {same,00,C1,FE,FF}
+//!                          (elapse b in {0,4,..,700} and 14 long batches 1020..1048576 clocks
+//!                          (>= 2^8 .. 2^18 machine cycles: whole translated blocks); re-arm page' in {same,00,C1,FE,FF}
 //!                          followed by 8 and 640 clocks; modify source at offset in
 //!                          {p-1,p,p+1,159} followed by 4 / 8 / 640 clocks)
-//!   2 histories            all histories of length 3 over a 16-letter alphabet from 6
+//!   2 histories            all histories of length 3 over a 17-letter alphabet from 6
 //!                          (quick: 4) progress values per page (restart during restart, modify after
 //!                          restart, ...), judged after every action
 //!   3 batching             every split of the 640-clock transfer into two and three batches
 //!                          at 4-clock granularity, and every composition of 1..8 units of
 //!                          {4, 60, 252} clocks (1..6 units on the pages outside the quick
-//!                          set), against the one-batch run of the same world
+//!                          set), the 160 x 4-clock run, and long batches (1024..1048576
+//!                          clocks) first / in the middle / last, against the one-batch run
 
 use crate::devices::io::IO;
 use crate::emulator::Core;
@@ -45,8 +47,13 @@ const QUICK_PAGES: [u8; 14] = [0x00, 0x3F, 0x40, 0x7F, 0x80, 0x9F, 0xA0, 0xC0, 0
 /// progress values the history stage starts from (usize::MAX = idle)
 const HIST_P0: [usize; 6] = [usize::MAX, 0, 1, 80, 158, 159];
 const HIST_P0_QUICK: [usize; 4] = [usize::MAX, 0, 80, 159];
-/// history alphabet: 7 batch sizes, 5 re-arms, 4 source modifications
-const HIST_ELAPSE: [u32; 7] = [0, 4, 8, 316, 636, 640, 700];
+/// history alphabet: 8 batch sizes (two of them longer than 255 machine cycles), 5 re-arms, 4 source modifications
+const HIST_ELAPSE: [u32; 8] = [0, 4, 8, 316, 636, 640, 1028, 16388];
+/// catch-up batches as long as whole translated blocks (machine-cycle counts around 2^8, 2^9,
+/// 2^10, 2^12, 2^14, 2^16 and 2^18): one-step elapse action from every state
+const LARGE_ELAPSE: [u32; 14] = [1020, 1024, 1028, 1280, 2044, 2048, 2052, 4096, 16384, 65532, 65536, 65540, 262144, 1048576];
+/// large batches placed first / in the middle / last in the batching stage
+const LARGE_SPLIT: [u32; 8] = [1024, 1028, 1280, 2048, 4096, 65536, 65540, 1048576];
 const COMP_UNITS: [u32; 3] = [4, 60, 252];
 /// I/O registers whose write has no effect beyond storing the value (used by "modify" on page FF)
 const SAFE_IO: [usize; 9] = [0x05, 0x06, 0x42, 0x43, 0x47, 0x48, 0x49, 0x4A, 0x4B];
@@ -59,7 +66,7 @@ const C_TRACES: usize = 1; // every judged step whose bus trace was compared (in
 const C_STATES: usize = 2; // (page, progress) states constructed and confirmed through the hook
 const C_BYTES: usize = 3; // DMA byte copies observed in traces
 const C_MODSKIP: usize = 4; // modify actions with no admissible target (no-op)
-const C_LEFT_VBLANK: usize = 5; // cases in which the PPU left the power-on VBlank (assumption broken)
+const C_LEFT_VBLANK: usize = 5; // cases longer than the power-on VBlank (4560 clocks): the PPU renders meanwhile (informational)
 const C_UNDO_BAD: usize = 6; // world restore did not reproduce the pristine world
 const C_SPLITS: usize = 7; // batch schedules compared with the one-batch run
 const C_VOLATILE: usize = 8; // volatile I/O source bytes judged with the set-valued oracle
@@ -212,8 +219,8 @@ struct Exec<'w> {
   w: &'w mut World,
   r: Ref,
   log: Vec<LogEnt>,
-  /// value of each volatile I/O register at the start of the case (lower end of the accepted interval)
-  vol0: [u8; 4],
+  /// clocks elapsed in this case
+  clocks: u64,
   /// writes of the last judged step, as traced
   last_writes: Vec<(u16, u8)>,
   /// class bits of the last step (for the non-vacuity bitmap)
@@ -275,12 +282,8 @@ impl<'w> Exec<'w> {
       }
     }
     w.core.memory.oam_ram.copy_from_slice(&oam);
-    let mut vol0 = [0u8; 4];
-    for (i, off) in VOLATILE_IO.iter().enumerate() {
-      vol0[i] = bus_read(&w.core, 0xFF00 | *off as u16);
-    }
     let banks = (w.core.memory.cart_state.get_rom_bank(), w.core.memory.cart_state.get_ram_bank(), w.core.memory.vram_bank, w.core.memory.wram_bank);
-    Exec { banks, w, r: Ref { page, dma: None, oam }, log: Vec::with_capacity(8), vol0, last_writes: Vec::with_capacity(OAM_LEN), last_class: 0, bytes: 0, volatile_judged: 0, modify_skipped: 0, lazy: false, final_step: false }
+    Exec { banks, w, r: Ref { page, dma: None, oam }, log: Vec::with_capacity(8), clocks: 0, last_writes: Vec::with_capacity(OAM_LEN), last_class: 0, bytes: 0, volatile_judged: 0, modify_skipped: 0, lazy: false, final_step: false }
   }
 
   fn volatile_index(&self, off: usize) -> Option<usize> {
@@ -291,15 +294,18 @@ impl<'w> Exec<'w> {
     }
   }
 
-  /// Set-valued oracle for a volatile I/O source byte: any value the register can have shown
-  /// between the start of the case and now.  IF is not judged.
-  fn volatile_ok(&self, vi: usize, got: u8) -> bool {
-    if VOLATILE_IO[vi] == 0x0F {
-      return true;
+  /// Set-valued oracle for a self-changing I/O source byte.  `start` is the register as the
+  /// bus showed it immediately before the batch.  Whatever the length of the batch, the byte is
+  /// copied within the first 640 clocks of it, so a correct engine (reading at batch start or
+  /// at the exact machine cycle) sees DIV advanced by at most 3, LY by at most 2 lines (mod
+  /// 154), and STAT differing only in the mode / coincidence bits.  IF is not judged.
+  fn volatile_ok(&self, vi: usize, got: u8, start: u8) -> bool {
+    match VOLATILE_IO[vi] {
+      0x04 => got.wrapping_sub(start) <= 3,
+      0x44 => got == start || (1..=2u16).any(|d| (start as u16 + d) % 154 == got as u16),
+      0x41 => (got ^ start) & !0x07 == 0,
+      _ => true,
     }
-    let now = bus_read(&self.w.core, 0xFF00 | VOLATILE_IO[vi] as u16);
-    let lo = self.vol0[vi];
-    got.wrapping_sub(lo) <= now.wrapping_sub(lo)
   }
 
   /// common post-conditions: OAM, progress / completion, every other memory
@@ -367,6 +373,7 @@ impl<'w> Exec<'w> {
           snap[i] = bus_read(&self.w.core, src | i as u16);
         }
         self.log.push(LogEnt::Elapse(b));
+        self.clocks += b as u64;
         trace_start();
         self.w.core.memory.run_clock_cycles(ClockCycles(b as usize));
         let (t, ovf) = trace_stop();
@@ -406,7 +413,7 @@ impl<'w> Exec<'w> {
           if let Some(vi) = self.volatile_index(i) {
             self.volatile_judged += 1;
             let got = self.w.core.memory.oam_ram.get(i).copied().unwrap_or(0);
-            let ok = self.volatile_ok(vi, got);
+            let ok = self.volatile_ok(vi, got, snap[i]);
             self.r.oam[i] = if ok { got } else { snap[i] };
           } else {
             self.r.oam[i] = snap[i];
@@ -517,8 +524,7 @@ impl<'w> Exec<'w> {
 
   /// end-of-case machinery checks: assumptions of the oracle that the harness itself must keep
   fn finish(&mut self, ctx: &mut Ctx) {
-    let (_, mode, _) = self.w.core.memory.io.video.verif_position();
-    if mode != 1 {
+    if self.clocks > 4560 {
       ctx.count(C_LEFT_VBLANK, 1);
     }
     ctx.count(C_BYTES, self.bytes);
@@ -644,9 +650,9 @@ pub fn run(tier: &str) -> i32 {
   let mut rep = Report::new("C16", tier, "model_checking");
   rep.assume("R8: write P to FF46 -> (P,0); a batch of b clocks copies k=min(160-n, floor(b/4)) bytes OAM[n+i] <- bus(P*256+n+i), ascending; n=160 -> idle; nothing else changes");
   rep.assume("the bus map itself is C10/C11's subject: the value of a source byte 'at the time it is copied' is taken with the real memory_read_byte immediately before the batch (echo/unused/I-O pages read whatever the bus returns)");
-  rep.assume("batches are multiples of 4 clocks (every SM83 instruction and interrupt dispatch is); b in {0,4,..,700}");
-  rep.assume("devices at power-on (IO::new()): PPU at the start of VBlank and never leaving it within a case (<= 2736 clocks, checked), timer disabled, DIV phase 0; IF is not judged");
-  rep.assume("source page FF: the self-changing registers DIV, STAT, LY are judged set-valued (any value shown between the start of the case and the end of the batch), IF is not judged; 'modify' on page FF only writes TIMA, TMA, SCY, SCX, BGP, OBP0, OBP1, WY, WX and HRAM");
+  rep.assume("batches are multiples of 4 clocks (every SM83 instruction and interrupt dispatch is); b in {0,4,..,700} and {1020,1024,1028,1280,2044,2048,2052,4096,16384,65532,65536,65540,262144,1048576}");
+  rep.assume("devices at power-on (IO::new()): PPU at the start of VBlank, LCDC = 0, timer disabled, DIV phase 0.  Long batches run the PPU through whole frames: it only reads VRAM/OAM and writes its own LCD buffers, which are not memory in the sense of the statement; VRAM, cart RAM, WRAM, HRAM and the bank numbers are still compared byte for byte.  IF (raised by the PPU) is not judged");
+  rep.assume("source page FF: the self-changing registers DIV, STAT, LY are judged set-valued relative to the bus value immediately before the batch (DIV +0..3, LY +0..2 lines mod 154, STAT free in bits 0-2: what an engine reading at batch start or at the exact machine cycle within the 640-clock copy window can see; with long batches these registers vary in most cases), IF is not judged; 'modify' on page FF only writes TIMA, TMA, SCY, SCX, BGP, OBP0, OBP1, WY, WX and HRAM");
   rep.assume("'modify' on ROM pages is an MBC3 ROM-bank switch (0x2100 <- 2|3), on cart RAM offset 159 a RAM-bank switch (0x4100 <- 2), elsewhere a bus write of the complemented byte; it takes effect between two batches");
   rep.assume("CPU bus conflicts during the transfer (only HRAM accessible) are outside the statement and not modelled");
 
@@ -656,7 +662,8 @@ pub fn run(tier: &str) -> i32 {
   let npages = pages.len() as u64;
 
   // ------------------------------------------------------------------ stage 1: E2b
-  let elapse_sizes: Vec<u32> = (0..=175u32).map(|i| i * 4).collect();
+  let mut elapse_sizes: Vec<u32> = (0..=175u32).map(|i| i * 4).collect();
+  elapse_sizes.extend_from_slice(&LARGE_ELAPSE);
   let opts = PoolOpts { chunk: 4, bitmap_bits: 1 << 12, ..PoolOpts::default() };
   let r1 = run_pool(
     npages * 161,
@@ -710,12 +717,12 @@ pub fn run(tier: &str) -> i32 {
         }
       }
       if case % 161 == 0 {
-        ctx.sample(|| J::obj().set("state", J::s(format!("page={:02X} progress=idle", page))).set("actions", J::s("elapse 0..700 step 4; rearm {same,00,C1,FE,FF} then 8, 640 clocks; modify {0,159} then 4/8/640 clocks")));
+        ctx.sample(|| J::obj().set("state", J::s(format!("page={:02X} progress=idle", page))).set("actions", J::s("elapse 0..700 step 4 and 14 batches of 1020..1048576 clocks; rearm {same,00,C1,FE,FF} then 8, 640 clocks; modify {0,159} then 4/8/640 clocks")));
       }
     },
     crash_detail("elapse", pages.clone(), 161),
   );
-  let c1 = rep.add_stage("transition-relation", "pages x progress {idle,0..159} x (176 batch sizes + 5 re-arms x 3 steps + <=4 source modifications x 3 batch sizes x 2 steps)", r1);
+  let c1 = rep.add_stage("transition-relation", "pages x progress {idle,0..159} x (176 + 14 large batch sizes + 5 re-arms x 3 steps + <=4 source modifications x 3 batch sizes x 2 steps)", r1);
 
   // ------------------------------------------------------------------ stage 2: histories
   let mut alphabet: Vec<Act> = Vec::new();
@@ -754,13 +761,15 @@ pub fn run(tier: &str) -> i32 {
     },
     crash_detail("history", pages.clone(), per_page2),
   );
-  let c2 = rep.add_stage("histories", "pages x start progresses {idle,0,1,80,158,159} (quick: {idle,0,80,159}) x all 16^3 histories over {elapse 0,4,8,316,636,640,700; rearm same,00,C1,FE,FF; modify p-1,p,p+1,159}, judged after every action", r2);
+  let c2 = rep.add_stage("histories", "pages x start progresses {idle,0,1,80,158,159} (quick: {idle,0,80,159}) x all 17^3 histories over {elapse 0,4,8,316,636,640,1028,16388; rearm same,00,C1,FE,FF; modify p-1,p,p+1,159}, judged after every action", r2);
 
   // ------------------------------------------------------------------ stage 3: batching
   // sub-case 0..=160: first batch of a*4 clocks, second b*4 for every b, third the rest
   // sub-case 161..=169: compositions of units {4,60,252} starting with the two given units
   //                     (161 also runs the three one-unit compositions)
-  let per_page3 = 170u64;
+  // sub-case 170: the 4-clock-granular run (160 batches) and long batches placed first, in the
+  //               middle and last
+  let per_page3 = 171u64;
   let opts = PoolOpts { chunk: 2, bitmap_bits: 1 << 12, ..PoolOpts::default() };
   let r3 = run_pool(
     npages * per_page3,
@@ -853,7 +862,19 @@ pub fn run(tier: &str) -> i32 {
         }
         x.finish(ctx);
       };
-      if sub <= 160 {
+      if sub == 170 {
+        run_schedule(w, ctx, &[4u32; 160]);
+        for l in LARGE_SPLIT.iter() {
+          run_schedule(w, ctx, &[*l]);
+          run_schedule(w, ctx, &[*l, 640]);
+          for a in [0u32, 1, 80, 159, 160].iter() {
+            run_schedule(w, ctx, &[4 * a, *l]);
+            run_schedule(w, ctx, &[4 * a, *l, 640]);
+            run_schedule(w, ctx, &[4 * a, 4, *l]);
+            run_schedule(w, ctx, &[4 * a, *l, 4, *l]);
+          }
+        }
+      } else if sub <= 160 {
         let a = sub as u32;
         // two batches
         run_schedule(w, ctx, &[4 * a, 640 - 4 * a]);
@@ -894,7 +915,7 @@ pub fn run(tier: &str) -> i32 {
     },
     crash_detail("split", pages.clone(), per_page3),
   );
-  let c3 = rep.add_stage("batching", "pages x (161 two-batch + 13041 three-batch splits of 640 clocks at 4-clock granularity + all compositions of 1..8 units (9843; on non-boundary pages 1..6 units, 1095) of {4,60,252} clocks, completed to 640)", r3);
+  let c3 = rep.add_stage("batching", "pages x (161 two-batch + 13041 three-batch splits of 640 clocks at 4-clock granularity + all compositions of 1..8 units (9843; on non-boundary pages 1..6 units, 1095) of {4,60,252} clocks, completed to 640 + the 160 x 4-clock run + 176 schedules with a batch of {1024,1028,1280,2048,4096,65536,65540,1048576} clocks first / in the middle / last)", r3);
 
   let _ = std::fs::remove_file(&path);
 
@@ -902,9 +923,7 @@ pub fn run(tier: &str) -> i32 {
   let traces = c1[C_TRACES] + c2[C_TRACES] + c3[C_TRACES];
   let states = c1[C_STATES];
   let left = c1[C_LEFT_VBLANK] + c2[C_LEFT_VBLANK] + c3[C_LEFT_VBLANK];
-  if left != 0 {
-    rep.machinery_error(format!("{} cases ran the PPU out of the power-on VBlank: the quiescence assumption of the oracle does not hold", left));
-  }
+  rep.cov("cases_running_past_the_power_on_vblank", J::u(left));
   let undo_bad = c1[C_UNDO_BAD] + c2[C_UNDO_BAD] + c3[C_UNDO_BAD];
   if undo_bad != 0 {
     rep.machinery_error(format!("{} cases: restoring the world did not reproduce the pristine memory", undo_bad));
